@@ -13,7 +13,7 @@ class CustomError(Exception):
 
 
 EXC_TYPES = [ValueError, KeyError, CustomError]
-TMP = os.path.join(lib.WORK, "tmp_c17")
+TMP = os.path.join(lib.SCRATCH, "tmp_c17")
 
 
 class Recorder:
